@@ -51,7 +51,7 @@ FLOORS = {'*': {**{f'{k}:{s}': 5 for k in ('oas31', 'oas30') for s in STACKS},
                 **{f'openrpc:{s}': 5 for s in ('default', 'pydantic', 'docstring')},
                 'shared-errors-list': 10, 'prefix-on-first-only': 5, 'prefix-on-later-only': 5, 'worker:oas31': 20, 'worker:oas30': 20,
                 'worker:openrpc': 20, 'isolation-comparisons': 100, 'repeat-generations': 100, 'view-method': 10,
-                'status-map-errors': 10, 'fingerprints-compared': 100, 'reused-spec-comparisons': 50, 'bystander-specs': 50, 'same-name-on-two-endpoints': 10, 'names-differing-only-in-separators': 5}}
+                'status-map-errors': 10, 'fingerprints-compared': 100, 'reused-spec-comparisons': 50, 'bystander-specs': 50, 'same-name-on-two-endpoints': 10, 'names-differing-only-in-separators': 5, 'pydantic-extractor-with-model-config': 20, 'methods-are-partial-objects': 10}}
 
 PENDING = []          # documents for the meta-schema worker: (key, kind, doc, case)
 
@@ -109,11 +109,12 @@ def entries(kind, doc):
 
 
 def generate(kind, stack, method_specs, prefixes, shared, status_map, order=None):
+    if order is not None:
+        # only the selected methods exist (are defined, annotated, registered), in that order
+        method_specs = [method_specs[i] for i in order]
+        prefixes = [prefixes[i] for i in order]
     methods, funcs = specworld.build_methods(method_specs, shared)
     spec = specworld.make_spec(kind, stack, shared, status_map)
-    if order is not None:
-        methods = [methods[i] for i in order]
-        prefixes = [prefixes[i] for i in order]
     mm = {}
     for m, p in zip(methods, prefixes):
         mm.setdefault(p, []).append(m)
@@ -132,6 +133,10 @@ def run_case(ctx, kind, stack, methods, prefixes, status_map, repeats):
         ctx.violation(f'building-spec-raises:{type(e).__name__}', fam, cls, exception=e, **wit)
         return
     anns = [m.get('annotate') or {} for m in methods]
+    if shared.get('pydantic_config') and 'pydantic' in stack:
+        ctx.hit('pydantic-extractor-with-model-config')
+    if any(m.get('partial') for m in methods):
+        ctx.hit('methods-are-partial-objects')
     if sum(1 for a in anns if a.get('errors') == 'shared') >= 2:
         ctx.hit('shared-errors-list')
     if len(methods) > 1 and anns[0].get('prefix') and not any(a.get('prefix') for a in anns[1:]):
@@ -474,6 +479,9 @@ def gen(ctx):
                 # the documented way to keep their components apart: a distinct component prefix per method
                 methods[0].setdefault('annotate', {})['prefix'] = 'V1_'
                 methods[1].setdefault('annotate', {})['prefix'] = 'V2_'
+        if k % 5 == 0:
+            for m in methods:
+                m['pd_config'] = True        # (on every method: the option belongs to the extractor, i.e. to the whole case)
         for kind in KINDS_:
             k += 1
             stacks = STACKS if kind != 'openrpc' else ['default', 'pydantic', 'docstring']
@@ -501,6 +509,12 @@ def gen(ctx):
         [dict(base('m0', annotate={'examples': 2, 'params_schema': True}), params=[['ref', 'PK', 'int', False], ['a', 'PK', 'Thing', True]]),
          dict(base('m1', annotate={'params_schema': True, 'result_schema': True}), params=[['a', 'PK', 'int', False], ['ref', 'KO', 'str', True]])],
         [base('m0', annotate={'tags': ['t1', 't2'], 'examples': 2, 'servers': True, 'security': True}), base('m1', annotate={'tags': ['t1', 't2']})],
+        # partial objects over one function, annotated one by one (or not at all)
+        [base('m0', partial=True, annotate={'summary': 's-m0', 'tags': ['t0'], 'errors': ['A'], 'examples': 1}),
+         base('m1', partial=True, annotate={'summary': 's-m1', 'tags': ['t1'], 'errors': ['B']}), base('m2', partial=True)],
+        [base('m0', partial=True), base('m1', partial=True, annotate={'description': 'only m1', 'deprecated': True, 'errors': ['C']})],
+        [base('m0', pd_config=True, annotate={'errors': ['A']}), base('m1', pd_config=True)],
+        [base('m0', pd_config=True, doc={'raises': ['B'], 'params': True}), base('m1', pd_config=True, annotate={'errors': ['C']}), base('m2', pd_config=True)],
     ]
     for methods in crafted:
         for kind in KINDS_:
